@@ -18,8 +18,10 @@ NS = "Mpgs.Serial."
 THEOREMS = [
     (NS + "C14_total", "full"),
     (NS + "C14_ok_well_typed", "full"),
+    (NS + "C14_cost_accounting", "full"),
+    (NS + "C14_reparse_zero", "full"),
     (NS + "C14_cost_linear_partial", "partial"),
-    (NS + "C14_cost_consumed_partial", "partial"),
+    (NS + "C14_cost_consumed", "full"),
     (NS + "C14_cost_server", "full"),
     (NS + "C14_server_never_verifies", "full"),
     (NS + "C14_clientHello_fixed_size", "full"),
@@ -31,9 +33,10 @@ ASSUMPTIONS = base.ASSUMPTIONS + [
     "allocation and timing are CPython's and only observed (tracemalloc / perf_counter, reported in notes)",
     "CPython's recursion limit (RecursionError at a few hundred nesting levels) is outside the model; the model "
     "decodes arbitrarily deep input; the nesting-bomb stream is checked on the real code only",
-    "C14_cost_linear is proved when the decode has no server_public_key keyword (every server-side decode) or no "
-    "signature verifies; a client that accepts the root key sent in the message re-parses the signed payload of "
-    "nested ServerHello messages (cost = bytes x nesting depth, depth <= bytes/170 and <= CPython's recursion limit)",
+    "cost is linear in input + re-parsed bytes (C14_cost_accounting, every environment); re-parsed = 0 when the decode has "
+    "no server_public_key keyword (every server-side decode) or no signature verifies (C14_reparse_zero); a client that "
+    "accepts the root key sent in the message re-parses the signed payload of nested ServerHello messages "
+    "(cost = bytes x nesting depth, depth <= bytes/170 and <= CPython's recursion limit): linearity in the input alone is partial",
 ]
 RULE = ("byte strings: random, every truncation and every single-bit flip of a corpus of valid encodings (random values of "
         "the grammar, the three handshake messages), crafted maximal / negative / non-integer length fields, unknown type "
@@ -319,9 +322,9 @@ class Monitor:
         self.worst_mem = (0.0, 0, "")
         self.worst_cost = (0.0, 0, "")
         self.K_TIME = 200e-6      # seconds per input byte (generous: CPython, crypto calls included)
-        self.C_TIME = 0.25
+        self.C_TIME = 1.0
         self.K_MEM = 400          # bytes of peak traced allocation per input byte
-        self.C_MEM = 256 * 1024
+        self.C_MEM = 1024 * 1024   # CPython frames of a recursion up to the recursion limit
 
     def allowed_types(self, v, depth=0):
         """a decoded value consists of builtin types and instances of registered classes only"""
@@ -404,22 +407,30 @@ class Monitor:
     def check_cost(self, label, data, kw):
         """the theorem's bound, evaluated with the counters on the real code (server-side decodes)"""
         R, ctx = self.R, self.ctx
-        if kw not in ("", "k=nokw"):
-            return False
+        kwargs = {}
+        if kw.startswith("k=") and kw != "k=nokw":
+            kwargs["server_public_key"] = None if kw == "k=none" else \
+                R.K.EllipticCurvePublicKey.fromBytes(bytes.fromhex(kw[2:]))
         with base.Instr(R) as ins:
             stream = ins.stream_cls(data)
             try:
-                R.S.Serializable.loadb(stream)
+                R.S.Serializable.loadb(stream, **kwargs)
             except RecursionError:
                 pass
             except Exception:
                 pass
             cost = ins.cost()
+            re = ins.reparsed
         n = len(data)
         if n >= 16 and cost / n > self.worst_cost[0]:
             self.worst_cost = (cost / n, n, label)
-        if cost > self.A * n + 1:
-            ctx.failure("cost", "decoder requested %d units for %d input bytes (bound %d*n+1) (%s)" % (cost, n, self.A, label),
+        if not kwargs and re != 0:
+            ctx.failure("reparse", "a decode without the server_public_key keyword parsed %d bytes twice (%s)" % (re, label),
+                        {"case": ["case mon", R.reg_line, "dec %s %s" % (base.hx(data) if n < 6000 else "big", kw)], "at": 1})
+            return True
+        if cost > self.A * (n + re) + 1:
+            ctx.failure("cost", "decoder requested %d units for %d input bytes + %d re-parsed (bound %d*(n+r)+1) (%s)"
+                        % (cost, n, re, self.A, label),
                         {"case": ["case mon", R.reg_line, "dec %s %s" % (base.hx(data) if n < 6000 else "big", kw)], "at": 1})
             return True
         return False
@@ -457,7 +468,7 @@ def run(ctx):
     corpus = []
     for label, b, kw in handshake_corpus(R):
         corpus.append((label, b, kw))
-    nvals = ctx.scale(12, 200)
+    nvals = ctx.scale(12, 400)
     while len(corpus) < 6 + nvals:
         v = base.gen_value(R, rng) if rng.random() < 0.8 else base.gen_deep(R, rng, rng.randint(2, 6))
         try:
@@ -474,7 +485,7 @@ def run(ctx):
             inputs.append((label + "-" + kind, m, kw))
     # random byte strings (biased towards plausible headers)
     ids = [1, 3, 4, 5, 6, 8, 9, 10, 11, 12, 13, 14, 15, 16, 17, 18] + [t for t in R.S.SerializableType.registry if t < 65536]
-    for _ in range(ctx.scale(1500, 150000)):
+    for _ in range(ctx.scale(1500, 300000)):
         n = rng.choice([0, 1, 2, 3, 4, 6, 8, 12, 20, 40, 100])
         if rng.random() < 0.5:
             data = bytes(rng.getrandbits(8) for _ in range(n))
@@ -508,6 +519,9 @@ def run(ctx):
         return any(o.startswith("ok") or (o.startswith("err") and "SerializableHeaderError" not in o) for o in outs)
 
     base.correspond(ctx, "Serial", cases, nontrivial, RULE)
+    for label, b, kw in [x for x in inputs if 4 < len(x[1]) < 60][:400:80]:
+        out, line = base.run_dec(R, base.hx(b), [kw] if kw else [])
+        ctx.sample({"layer": "Serial", "input": label, "ops": [line[:300]], "out": [out[:300]]})
 
     # monitor on the real code
     mon = Monitor(R, ctx)
@@ -535,7 +549,8 @@ def run(ctx):
                     R.S.Serializable.loadb(ins.stream_cls(b), server_public_key=None)
                 except Exception:
                     pass
-                rows.append({"depth": d, "bytes": len(b), "cost": ins.cost(), "cost_per_byte": round(ins.cost() / len(b), 2)})
+                rows.append({"depth": d, "bytes": len(b), "cost": ins.cost(), "reparsed": ins.reparsed,
+                             "cost_per_byte": round(ins.cost() / len(b), 2)})
             if mon.check("nested-hello-%d" % d, b, "k=none", trace_mem=True):
                 break
         ctx.notes["client_side_nested_serverhello"] = rows
@@ -546,4 +561,4 @@ def run(ctx):
     ctx.notes["worst_peak_alloc_per_byte"] = {"ratio": round(mon.worst_mem[0], 1), "bytes": mon.worst_mem[1], "input": mon.worst_mem[2]}
     ctx.notes["worst_cost_per_byte"] = {"ratio": round(mon.worst_cost[0], 2), "bytes": mon.worst_cost[1], "input": mon.worst_cost[2]}
     ctx.notes["monitor_bounds"] = {"time_s": "%g*n + %g" % (mon.K_TIME, mon.C_TIME), "alloc_bytes": "%d*n + %d" % (mon.K_MEM, mon.C_MEM),
-                                   "cost": "%d*n + 1" % mon.A}
+                                   "cost": "%d*(n + reparsed) + 1, reparsed = 0 without the keyword" % mon.A}
